@@ -12,7 +12,13 @@ func TestC08(t *testing.T) {
 	th := thorough()
 	params := C08Params(th)
 	checkFile(t, "C08", func(rt *rapid.T) *harness.Program {
-		p := harness.GenProgram(rt, params)
+		gp := params
+		if rapid.IntRange(0, 3).Draw(rt, "smallFile") == 0 {
+			// a small bounded file that runs full, transactions that use the overflow area: commits fail for
+			// lack of space as well as by injected failures, rollbacks truncate, overflow pages get released
+			gp.MaxPages, gp.MinPages, gp.NoFill, gp.Overflow, gp.SmallPages = 128, 0, false, true, false
+		}
+		p := harness.GenProgram(rt, gp)
 		thr := uint64(0)
 		if th {
 			thr = 1
